@@ -975,6 +975,14 @@ func (e *Engine) QueryPreparedStmt(ctx context.Context, tx *SQLTx, stmt DataSour
 				qtx.Cancel()
 			}
 		}()
+	} else if !stmt.readOnly() {
+		// a data-modifying statement (DML ... RETURNING) that fails aborts the ongoing transaction,
+		// as it does when it is executed with Exec: none of its partial effects can be committed later
+		defer func() {
+			if err != nil {
+				tx.Cancel()
+			}
+		}()
 	}
 
 	nparams, err := normalizeParams(params)
